@@ -25,9 +25,6 @@ Record adc := {
 Definition BASELINE_SAMPLES : N := 64.
 Definition MIN_KEEP_LAST : N := (BASELINE_SAMPLES + 2) / 2 + 1.
 
-Definition rd_be (l : list N) (a n : N) : res N :=
-  do s <- slice l a (a + n); do s' <- arr n s; Ok (be_val s').
-
 Fixpoint list_eqb (a b : list N) : bool :=
   match a, b with
   | [], [] => true
